@@ -26,6 +26,7 @@ def shuffle (l : List Nat) (orc : List Nat) : List Nat × List Nat :=
 
 /-- `_connect_evenly(world, src_set, dest_set)`: returns the `connect` calls in order and the
 returned `connected` collection (as a list, duplicates possible = set semantics).
+`zip(src_set[pos:], dest_set)` pairs the first `k = min(len, len)` elements of both.
 `fuel` bounds the number of rounds (the Python loop does not terminate for an empty `dest_set`
 and a non-empty `src_set`; `connect_randomly` asserts `dest_set` beforehand). -/
 def connectEvenlyLoop : Nat → List Nat → List Nat → List Nat → List (Nat × Nat) × List Nat
@@ -34,23 +35,23 @@ def connectEvenlyLoop : Nat → List Nat → List Nat → List Nat → List (Nat
     if srcs.isEmpty then ([], [])
     else
       let (ds, orc') := shuffle dests orc
-      let pairs := srcs.zip ds
-      let (restPairs, restConn) := connectEvenlyLoop fuel (srcs.drop dests.length) ds orc'
-      (pairs ++ restPairs, pairs.map (·.2) ++ restConn)
+      let k := min srcs.length ds.length
+      let pairs := (srcs.take k).zip (ds.take k)
+      let (restPairs, restConn) := connectEvenlyLoop fuel (srcs.drop ds.length) ds orc'
+      (pairs ++ restPairs, ds.take k ++ restConn)
 
 def connectEvenly (srcs dests orc : List Nat) : List (Nat × Nat) × List Nat :=
   connectEvenlyLoop (srcs.length + 1) srcs dests orc
 
-/-- state of the `_connect_randomly` loop -/
+/-- state of the `_connect_randomly` loop: the (shrinking) `dest_set` and the connect calls so far
+(most recent first); `connects[d]` is the number of calls with destination `d`, `connected` the
+set of their destinations -/
 structure RState where
-  dests : List Nat                 -- the (shrinking) dest_set
-  counts : List (Nat × Nat)        -- `connects` dict
-  pairs : List (Nat × Nat)         -- connect calls so far (reverse order)
-  connected : List Nat
+  dests : List Nat
+  pairs : List (Nat × Nat)
 deriving Repr, Inhabited
 
-def count (c : List (Nat × Nat)) (d : Nat) : Nat := (c.lookup d).getD 0
-def bump (c : List (Nat × Nat)) (d : Nat) : List (Nat × Nat) := (d, count c d + 1) :: c.filter (·.1 ≠ d)
+def RState.count (st : RState) (d : Nat) : Nat := (st.pairs.map (·.2)).count d
 
 /-- one iteration of the `for src in src_set` loop of `_connect_randomly`;
 `none` = `assert max_i >= 0` fails.  `maxC = none` is `max_connects = inf`. -/
@@ -59,14 +60,11 @@ def randomStep (maxC : Option Nat) (st : RState) (src : Nat) (draw : Nat) : Opti
   else
     let i := draw % st.dests.length             -- randint(0, max_i), max_i = len(dest_set) - 1
     let dest := st.dests.getD i 0
-    let counts := bump st.counts dest
+    let st1 : RState := { st with pairs := (src, dest) :: st.pairs }
     let full := match maxC with
       | none => false
-      | some m => decide (count counts dest ≥ m)
-    some { dests := if full then st.dests.erase dest else st.dests,
-           counts := counts,
-           pairs := (src, dest) :: st.pairs,
-           connected := dest :: st.connected }
+      | some m => decide (st1.count dest ≥ m)
+    some { st1 with dests := if full then st.dests.erase dest else st.dests }
 
 def randomLoop (maxC : Option Nat) : RState → List Nat → List Nat → Option RState
   | st, [], _ => some st
@@ -84,9 +82,9 @@ def connectRandomly (srcs dests : List Nat) (maxC : Option Nat) (orc : List Nat)
     | some m => decide (srcs.length ≤ dests.length * m)
   if !sizeOk then none
   else
-    match randomLoop maxC { dests := dests, counts := [], pairs := [], connected := [] } srcs orc with
+    match randomLoop maxC { dests := dests, pairs := [] } srcs orc with
     | none => none
-    | some st => some (st.pairs.reverse, st.connected)
+    | some st => some (st.pairs.reverse, st.pairs.map (·.2))
 
 /-- `connect_randomly(world, src_set, dest_set, evenly=…, max_connects=…)` -/
 def connectRandomlyTop (srcs dests : List Nat) (evenly : Bool) (maxC : Option Nat) (orc : List Nat) :
